@@ -707,3 +707,20 @@ def analyse(ctx, root_npaths, audit, stop_re=None, label=None, with_callbacks=Tr
     ctx.note('PANIC %s: %s' % (label or ','.join(short_name(r) for r in root_npaths), stats))
     ctx.samples.extend({'rule': ctx.cur_rule, 'instance': 'discharge', 'ok': True, 'observed': s} for s in samples[:6])
     return stats, par
+
+
+def property_rule(ctx, prop, rule_id, extra_text=''):
+    """The PANIC rule of a property: roots and leaf patterns come from rules/panic_roots.py, audit from rules/panic_audit.json."""
+    from rules.panic_roots import ROOTS, stop_regex
+    spec = ROOTS[prop]
+    ctx.rule(rule_id, 'PANIC: every panic-capable construct (bounds/division asserts, panic!/assert!/unreachable!, unwrap/expect, slice '
+             'indexing and copy_from_slice/split_at/copy_within, Vec/ArrayVec remove/insert, Duration/Instant arithmetic, clamp, gen_range, '
+             'GenericArray::from_slice) reachable in the workspace call graph from %s is discharged by a recognised local proof or by a '
+             'reasoned entry of rules/panic_audit.json; anything else is reported with its call path. %s' % (', '.join(spec['roots']), extra_text))
+    audit = Audit(os.path.join(os.path.dirname(os.path.dirname(os.path.abspath(__file__))), 'rules', 'panic_audit.json'))
+    for pat, why in spec['stops']:
+        ctx.assume('PANIC leaf %s: %s' % (pat, why))
+    stats, par = analyse(ctx, spec['roots'], audit, stop_re=stop_regex(prop), label=prop)
+    ctx.assume('external crates and std are leaves: callees not listed in the panic-capable table are assumed not to panic')
+    ctx.assume('modelled build: overflow checks and debug assertions off (release profile); panic = abort')
+    return stats
